@@ -6,9 +6,9 @@ func init() {
 	vRegister("HC06_TargetDeath", HC06_TargetDeath)
 }
 
-var hDeathPrefixes = [8]int{3, 4, 5, 7, 8, 10, 11, 12}
+var hDeathPrefixes = [10]int{3, 4, 5, 7, 8, 10, 11, 12, 13, 14}
 
-const hNDeathOps = 7
+const hNDeathOps = 8
 
 func (x *hW) deathStep(op int) {
 	switch op {
@@ -54,6 +54,22 @@ func (x *hW) deathStep(op int) {
 		ok, m := x.batchLegal(f, t, add, rem)
 		vAssume(ok && m >= 1)
 		x.opBatchExchange(b.f, f, t, add, rem, 0, vChoice("q", 2) == 1, -1, Entity{})
+	case 7: // a child of a (possibly dead) target gains or loses a plain component: it changes node and keeps its target
+		var idx [hMaxH]int
+		n := 0
+		for j := 0; j < x.n; j++ {
+			if x.alive[j] && hRelOf(x.set[j]) >= 0 {
+				idx[n] = j
+				n++
+			}
+		}
+		vAssume(n > 0)
+		i := idx[vChoice("ent", n)]
+		if x.set[i]&(1<<uA) != 0 {
+			x.opExchange(i, 0, 1<<uA, 2)
+		} else {
+			x.opExchange(i, 1<<uA, 0, 1)
+		}
 	case 5:
 		f, t := x.pickFilter("filter")
 		vAssume(f >= fR1)
